@@ -3,10 +3,10 @@ From QV Require Import Base.Bytes Sys.Heap.
 From QV Require Import Gen.Globals Sys.GlobalAudit.
 Local Open Scope N_scope.
 
-(* ================================================================== the finding (DESIGN section 6, D6), machine-checked.
+(* ================================================================== finding D6 (DESIGN section 6), fixed in /repo by b456e5d1.
    History: documents 1 and 2; document 1 parses `[ null 1 ]`, document 2 parses `<< /K [ null 2 ] >>`;
-   document 1 makes ITS null indirect.  With the shared cell ([sh = true], the code as it is) what a caller
-   sees of document 2 and of a fresh parse changes. *)
+   document 1 makes ITS null indirect.  With the shared cell ([sh = true], the discipline BEFORE the fix) what a
+   caller sees of document 2 and of a fresh parse changes; with [sh = false] (the code as it is) nothing does. *)
 Definition d6_prefix : list (nat * iop) :=
   [(1%nat, OpNewDoc); (2%nat, OpNewDoc);
    (1%nat, OpParse 11%nat [TAO; TNull; TInt 1; TAC]);
@@ -192,7 +192,7 @@ Qed.
 Lemma ok_wf a w w' : ok a w w' -> wf w -> wf w'.
 Proof. intros [_ H]; auto. Qed.
 
-(* ------------------------------------------------------------------ navigation (repaired discipline: sh = false) *)
+(* ------------------------------------------------------------------ navigation (the code as it is: sh = false) *)
 Lemma nav1_ok a w l s w1 l1 :
   wf w -> in_a a l -> nav1 false a w l s = Some (w1, l1) -> ok a w w1 /\ in_a a l1.
 Proof.
@@ -746,10 +746,10 @@ Qed.
 
 (* ================================================================== the theorems *)
 
-(* DESIGN section 5, frame_other_docs, for the allocation discipline WITHOUT the process-wide shared null cells:
-   an operation of document a leaves what a caller sees of every other document unchanged, and the result of
-   every later context-free parse too (documents are numbered from 1; arena 0 is the scratch arena). *)
-Lemma frame_other_docs_partial_lemma : forall (w : world) (a b : nat) (op : iop),
+(* DESIGN section 5, frame_other_docs (the model of the code as it is, [step false]): an operation of document a
+   leaves what a caller sees of every other document unchanged, and the result of every later context-free parse
+   too (documents are numbered from 1; arena 0 is the scratch arena of context-free parses). *)
+Lemma frame_other_docs_lemma : forall (w : world) (a b : nat) (op : iop),
   wf w -> a <> b -> a <> O ->
   obs_doc (fst (step false a w op)) b = obs_doc w b /\
   forall toks, parse_fresh false (fst (step false a w op)) toks = parse_fresh false w toks.
@@ -759,10 +759,10 @@ Proof.
   - intros toks. apply parse_fresh_view; auto. unfold view_eq. apply Ho. auto.
 Qed.
 
-(* The full statement of DESIGN section 5 (for the code as it is, [sh = true]):
-     forall w a b op, wf w -> a <> b -> obs_doc (fst (step true a w op)) b = obs_doc w b /\ forall toks, parse_fresh ...
-   is FALSE: witness below (finding D6). *)
-Lemma frame_other_docs_refuted_lemma :
+(* HISTORICAL (finding D6, tree before fix b456e5d1): under the discipline with the process-wide shared null
+   ([sh = true]) the frame statement is false - computed witness.  Kept because it is what the repair removed and
+   what the check recognises if the repair is reverted. *)
+Lemma shared_null_discipline_breaks_frame_lemma :
   exists (w : world) (a b : nat) (op : iop),
     a <> b /\ a <> O /\ w = d6_world true /\
     obs_doc (fst (step true a w op)) b <> obs_doc w b /\
@@ -773,8 +773,9 @@ Proof.
   split; vm_compute; discriminate.
 Qed.
 
-(* the same history under the repaired discipline: nothing changes for document 2 (non-vacuity of the partial theorem) *)
-Lemma frame_d6_history_repaired_lemma :
+(* the same history on the model of the code as it is: nothing changes for document 2, and document 2 is not empty
+   (non-vacuity of frame_other_docs) *)
+Lemma frame_d6_history_lemma :
   obs_doc (fst (step false 1 (d6_world false) d6_op)) 2 = obs_doc (d6_world false) 2 /\
   obs_doc (d6_world false) 2 <> ([], []).
 Proof. split; vm_compute; [reflexivity|discriminate]. Qed.
@@ -815,6 +816,8 @@ Qed.
 Lemma globals_all_audited_lemma : forallb audited inventory = true.
 Proof. vm_compute. reflexivity. Qed.
 
-(* ... and the ones classified as shared-and-mutable are exactly the statics of the recorded finding *)
-Lemma globals_shared_mutable_are_known_lemma : filter is_shared_mutable inventory = d6_statics.
-Proof. vm_compute. reflexivity. Qed.
+(* ... none of them is a shared-and-mutable object any more, and the statics of finding D6 are gone *)
+Lemma globals_none_shared_mutable_lemma :
+  filter is_shared_mutable inventory = [] /\
+  forallb (fun g => negb (existsb (String.eqb g) inventory)) d6_statics = true.
+Proof. vm_compute. split; reflexivity. Qed.
